@@ -28,7 +28,7 @@ na = [{"property_id": pid, "reason": src["not_applicable"].get(pid, "check not b
       for pid in props if pid not in src["checks"]]
 m = {
     "version": 1,
-    "setup_cmd": "cd lean && lake build 2>&1 | tail -5",
+    "setup_cmd": "python3 tools/gen_lean.py && cd lean && lake build 2>&1 | tail -5",
     "hooks": {
         "guard": "MOKAPOT_VERIF",
         "enable": "no instrumentation commits in /repo; checks import mokapot from /repo's working tree (editable install in /venv) with MOKAPOT_VERIF=1 set",
